@@ -450,7 +450,9 @@ def _dataset(da, x, y, k, m):
                 if ds[key].axes[d].size != ds[key].values.shape[ds[key].dims.index(d)]:
                     raise Violation("dataset-variable-malformed", {"var": key, "dim": d, "after": step}, sig={"op": "dataset"})
     shared("insertion")
-    pd = [x.dims[i] for i in plain_dims(x) if not is_grouped(x.axes[i]) and "," not in x.dims[i]]
+    pd = _CTX.get("dataset_names")      # decided once on the history-laden array, so that its twin takes the same branch
+    if pd is None:
+        pd = [x.dims[i] for i in plain_dims(x) if not is_grouped(x.axes[i]) and "," not in x.dims[i]]
     if m >= 6 and pd:
         # relabel through the dataset: a new axis given as bare labels (list / ndarray) or as an Axis, then an in-place change
         d = pd[k % len(pd)]
@@ -618,6 +620,7 @@ def run_history(case, allow_kf_pattern=False):
             if tag in ("relabel", "rename", "assign", "index", "reindex") and not plain_dims(x):
                 continue
             _CTX["inplace_names"] = None
+            _CTX["dataset_names"] = [x.dims[i_] for i_ in plain_dims(x) if not is_grouped(x.axes[i_]) and "," not in x.dims[i_]] if tag == "dataset" else None
             if tag in ("relabel", "rename"):
                 names_ = [x.axes[i_].name for i_ in inplace_dims(x)]
                 if not names_:
